@@ -34,7 +34,7 @@ def elem_configs(tier, seed):
     return cfgs
 
 
-def run_vector(prop, modname, tier, seed, explanation, min_cfg=60, min_ob=500, cfgs=None, elements=None, **kw):
+def run_vector(prop, modname, tier, seed, explanation, min_cfg=60, min_ob=500, cfgs=None, elements=None, elements_eh=False, **kw):
     ctx = Ctx(prop, tier, seed)
     cfgs = cfgs if cfgs is not None else vector_configs(tier, seed)
     corpus.run(ctx, modname, "rule", cfgs, **kw)
@@ -42,7 +42,10 @@ def run_vector(prop, modname, tier, seed, explanation, min_cfg=60, min_ob=500, c
         # the same rules on the ContiguousElement witnesses (rule function `elements` of the module)
         from .. import gen
         ecfgs = elem_configs(tier, seed)
-        corpus.run(ctx, modname, elements, ecfgs, flags=("-fno-exceptions",) + gen.ELEM_FLAGS, extra={"gen": "gen_elem_tu"})
+        if elements_eh:
+            corpus.run(ctx, modname, elements, ecfgs, flags=gen.ELEM_FLAGS, tag="+eh", extra={"gen": "gen_elem_tu"})
+        else:
+            corpus.run(ctx, modname, elements, ecfgs, flags=("-fno-exceptions",) + gen.ELEM_FLAGS, extra={"gen": "gen_elem_tu"})
         ctx.count("element_configurations", len(ecfgs))
     ctx.floor("configurations", len(cfgs), min_cfg)
     ctx.floor("obligations", ctx.obligations, min_ob)
